@@ -113,8 +113,8 @@ impl Check for C13 {
     }
     fn phases(&self, tier: Tier) -> Vec<Phase> {
         match tier {
-            Tier::Quick => vec![Phase::random("producer-scenarios", 400, 256).batch(10).watchdog(60_000)],
-            Tier::Thorough => vec![Phase::random("producer-scenarios", 6_000, 256).batch(20).watchdog(60_000)],
+            Tier::Quick => vec![Phase::random("producer-scenarios", 3_000, 256).batch(20).watchdog(60_000)],
+            Tier::Thorough => vec![Phase::random("producer-scenarios", 40_000, 256).batch(20).watchdog(60_000)],
         }
     }
     fn max_workers(&self) -> usize {
@@ -125,7 +125,8 @@ impl Check for C13 {
     }
     fn run(&self, _phase: usize, tape: &[u8], want_sample: bool) -> CaseResult {
         let sc = decode(tape);
-        rufsm::verif_sync::set_tracking(false);
+        // the jitter is only injected by the tracking path of the instrumented mutex
+        rufsm::verif_sync::set_tracking(sc.jitter != 0);
         rufsm::verif_sync::set_jitter(sc.jitter);
         let mut scen = Scen::new();
         let rx = match scen.start(&RECEIVER.replace("PAUSE", &sc.pause_us.to_string()), &[]) {
@@ -196,6 +197,7 @@ impl Check for C13 {
         let total: usize = expected.iter().map(|v| v.len()).sum();
         let all_seen = scen.wait_until(Duration::from_secs(20), |l| l.count(rx_id, "f2") >= total);
         rufsm::verif_sync::set_jitter(0);
+        rufsm::verif_sync::set_tracking(false);
         for i in 0..scen.sessions.len() {
             scen.send_name(i, "stop");
         }
